@@ -1,6 +1,6 @@
 (* C08 — revocation is effective, complete and restricted to the owning client.  Statements only.
    "Accepted" is judged at the API verdict of the revocation endpoint (see DESIGN.md 6.0). *)
-From FositeModel Require Import Base.Str Model.Scope Model.Core Model.Flows Proofs.CoreInv Proofs.Family Proofs.Implicit Proofs.C08Proofs.
+From FositeModel Require Import Base.Str Model.Scope Model.Core Model.Flows Proofs.CoreInv Proofs.Family Proofs.Implicit Proofs.C08Proofs Cases.CasesHist Cases.Monitors Proofs.MonitorC04.
 
 (* accepted request of the owning client for a token with a live record: that token and the access/refresh
    token of the same grant are inactive for all later use (any history, hint, scope list, presentation).
@@ -68,3 +68,12 @@ Theorem C08_other_grants_untouched :
   = introspect cfg s1 {| p_ref := CRef i; p_tampered := tampered |} hint scopes.
 Proof. exact revoke_spares_other_grants. Qed.
 Print Assumptions C08_other_grants_untouched.
+
+(* the history monitor (Cases/Monitors.v judge_C08) on the model: an unauthenticated revocation request never trips it,
+   for any tracker whose previous probe vector is that of the state the request meets *)
+Theorem C08_monitor_unauthenticated_clause_holds_of_the_model : forall cfg m s tok h,
+  m_prev m = probes cfg s ->
+  let res := step cfg s (ORevoke None tok h) in
+  judge_C08 m (ORevoke None tok h) (snd res) (probes cfg (fst res)) = (None, [], []).
+Proof. exact judge_C08_unauthenticated_sound. Qed.
+Print Assumptions C08_monitor_unauthenticated_clause_holds_of_the_model.
